@@ -39,7 +39,7 @@ Fixpoint take_finals (rs : list str) (reps : list reply) : option (list ev * lis
       | rp :: reps' =>
           if final_reply r rp
           then match take_finals rs' reps' with
-               | Some (e, rest) => Some (Deliver r [] (N.eqb (fst rp) 250) :: e, rest)
+               | Some (e, rest) => Some ((if N.eqb (fst rp) 250 then Deliver r [] true else Refuse r (fst rp)) :: e, rest)
                | None => None
                end
           else None
@@ -112,6 +112,7 @@ Definition ev_matches (e : ev) (rp : reply) : bool :=
   match e with
   | Reply _ c _ => N.eqb c code
   | Deliver r _ _ => (N.eqb code 250 || N.eqb code 550) && contains text (S_ "<" ++ r ++ S_ ">")
+  | Refuse r c => N.eqb c code && contains text (S_ "<" ++ r ++ S_ ">")
   end.
 Fixpoint evs_match (evs : list ev) (reps : list reply) : bool :=
   match evs, reps with
